@@ -338,9 +338,22 @@ def _ident_value_benign(m, f, e, depth):
         return True, ''
     if isinstance(p, ast.Assign) and p.value is t:
         for tg in p.targets:
-            if isinstance(tg, ast.Name):
-                scope = f if f is not None else m.tree
-                for u in ast.walk(scope):
+            if isinstance(tg, ast.Name) and f is None:
+                # class / module level binding: read as an attribute
+                # anywhere, or by name outside the functions
+                for u in ast.walk(m.tree):
+                    hit = isinstance(u, ast.Attribute) and \
+                        u.attr == tg.id and isinstance(u.ctx, ast.Load)
+                    hit = hit or (isinstance(u, ast.Name) and u.id == tg.id
+                                  and isinstance(u.ctx, ast.Load)
+                                  and _fn(u) is None)
+                    if hit:
+                        ok, why = _ident_value_benign(m, _fn(u), u,
+                                                      depth + 1)
+                        if not ok:
+                            return False, why
+            elif isinstance(tg, ast.Name):
+                for u in ast.walk(f):
                     if isinstance(u, ast.Name) and u.id == tg.id and \
                             isinstance(u.ctx, ast.Load):
                         ok, why = _ident_value_benign(m, f, u, depth + 1)
@@ -375,6 +388,11 @@ def _benign_use(m, f, c, label):
                 ('logging.', '_print_progress', 'print')):
             return True, 'logged only'
         p = getattr(p, '_parent', None)
+    if f is None and label in ('os.getpid()', 'threading.get_ident()'):
+        ok, why = _ident_value_benign(m, f, c, 0)
+        if ok:
+            return True, 'compared for equality / names a private file'
+        return False, f'module level ({why})'
     if f is None:
         # "X = <call>" in a class body / at module level: every read of X
         # (as a name there, as an attribute anywhere) is an operand of an
